@@ -300,3 +300,11 @@ Theorem C04_acquire_loop_step : forall f net cached target count,
 Proof. exact acquire_loop_step. Qed.
 Print Assumptions C04_acquire_priv_is_source.
 Print Assumptions C04_acquire_loop_step.
+
+(* escalate / deescalate AS THE SOURCE HAS THEM: a plain send of the escalate command unless the
+   level wants authentication AND a secondary secret is set; then the two-event dialogue with exactly
+   the model's events (command -> escalate prompt, visible; secret -> the level's pattern, hidden)
+   and completion patterns (the previous level's and the level's own); de-escalation is a plain send *)
+Theorem C04_escalate_is_source : esc_table_ok = true.
+Proof. exact escalate_is_source. Qed.
+Print Assumptions C04_escalate_is_source.
